@@ -22,7 +22,7 @@ NS = "Pysersic.Props.C02."
 OBLIGATIONS = [NS + t for t in ["sersic2d_of_z", "sersicOfZ_strictAnti", "z_on_major_axis", "z_on_minor_axis", "z_zero_iff", "z_point_symm",
                                 "axis_mod_pi", "gaussPixelTerm_of_z", "gaussFourierTerm_form", "hybrid_broadening"]]
 # kernels whose translated source text (Gen/Kernels.lean) is proved equal to the model kernel this property's theorems are about
-GEN_KERNELS = ["render_sersic_2d", "render_gaussian_pixel_term", "render_gaussian_fourier_term"]
+GEN_KERNELS = ["render_sersic_2d", "render_gaussian_pixel_term", "render_gaussian_fourier_term", "hybrid_broaden"]
 MIRRORED_FILES = ["pysersic/rendering.py"]
 ASSUMPTIONS = [
     "that the z = 1 ellipse encloses half of the light is not proved (b_n is an approximation; the fraction is P(2n, b_n) = 0.494…0.500): observed within 0.50 ± 0.02",
